@@ -1131,7 +1131,7 @@ func lifeUDPRace(c *Ctx, n int) {
 		gone, pending := 0, 0
 		for i := 0; i < n; i++ {
 			c.Touch()
-			g0 := goroutinesOf("frontend/udp.NewFrontend.func") + goroutinesOf("frontend/udp.(*Frontend).serve")
+			s0, w0 := goroutinesOf("frontend/udp.(*Frontend).serve"), goroutinesOf("frontend/udp.NewFrontend.func")
 			fe, err := udpfe.NewFrontend(lg, udpfe.Config{Addr: "127.0.0.1:0", PrivateKey: udpKey, MaxClockSkew: 10 * time.Second})
 			if err != nil {
 				return "new-failed"
@@ -1143,7 +1143,9 @@ func lifeUDPRace(c *Ctx, n int) {
 				pending++
 				continue
 			}
-			if goroutinesOf("frontend/udp.NewFrontend.func")+goroutinesOf("frontend/udp.(*Frontend).serve") <= g0 {
+			// nothing may be inside serve() any more, at once; the goroutine that ran it has signalled the wait group in a
+			// deferred call and may still be on its last instructions (seen once in 1500 on a loaded machine): a moment for that
+			if goroutinesOf("frontend/udp.(*Frontend).serve") <= s0 && goroutinesLeft("frontend/udp.NewFrontend.func", w0) == 0 {
 				gone++
 			}
 		}
